@@ -93,6 +93,8 @@ Choices ==
          \cup {[Node(0, "loop") EXCEPT !.form = "count", !.cnt = c, !.lv = "a", !.start = -2, !.step = -2] : c \in 2..3}
          \* <for var="a" data="1, 2, .., c">: the items are 1..c
          \cup {[Node(0, "loop") EXCEPT !.form = "for", !.cnt = c, !.lv = "a", !.start = 1, !.step = 1] : c \in 1..3}
+         \* the count given by a variable which the body goes on to change
+         \cup {[Node(0, "loop") EXCEPT !.form = "count", !.cond = RdV("b")]}
          \* ... with idx-var="b": the 0-based position of the item
          \cup {[Node(0, "loop") EXCEPT !.form = "for", !.cnt = c, !.lv = "a", !.start = 1, !.step = 1, !.rd = "b"] : c \in 2..3}
          \cup {[Node(0, "loop") EXCEPT !.form = "while", !.cond = Lt("b", c)] : c \in {0, 2, 3}}
@@ -148,7 +150,7 @@ Choices ==
          \cup {[Node(0, "loop") EXCEPT !.form = "while", !.cond = Lt("b", c)] : c \in {2, 3}}
          \cup {[Node(0, "loop") EXCEPT !.form = "until", !.cond = Ge("b", c)] : c \in {2, 3}}
          \cup {[Node(0, "leaf") EXCEPT !.rd = "b"], [Node(0, "var") EXCEPT !.asg = <<<<"b", Inc("b")>>>>],
-               [Node(0, "if") EXCEPT !.cond = Lt("b", 2)]}
+               [Node(0, "if") EXCEPT !.cond = Lt("b", 2)], Node(0, "specs")}
     [] Family = "config" ->
          \* limits set from the document, with loops / nesting / values around the new limit
          {[Node(0, "config") EXCEPT !.loc = l] : l \in {<<<<"ll", 1>>>>, <<<<"ll", 3>>>>, <<<<"dl", 2>>>>, <<<<"dl", 3>>, <<"ll", 2>>>>}}
@@ -221,7 +223,8 @@ AttachOK(d, nd) ==
     /\ d < MaxDepth
     /\ Family = "flat" => d <= 1 /\ (d = 1 => nd.k = "leaf")
     \* nothing is put inside a specs block except templates
-    /\ (d > 0 /\ RightPath(doc)[d] = "specs") => nd.k \in {"leaf", "g"}
+    \* (family looplim also puts loops there: exceeding a limit is final inside <specs> too)
+    /\ (d > 0 /\ RightPath(doc)[d] = "specs") => (nd.k \in {"leaf", "g"} \/ (Family = "looplim" /\ nd.k = "loop"))
     /\ (nd.k = "specs") => d = 0
     \* content-carrying elements have no element children
     /\ (d > 0 /\ RightPathNodes(doc)[d].content) => FALSE
@@ -474,7 +477,7 @@ IfDone ==
 
 LoopInit ==
     /\ Body("loop")
-    /\ stack' = SetTopFrame([Top EXCEPT !.ph = "test", !.it = 0, !.lvv = Top.nd.start])
+    /\ stack' = SetTopFrame([Top EXCEPT !.ph = "test", !.it = 0, !.lvv = Top.nd.start, !.nd = FixCount(Top.nd, scopes)])
     /\ UNCHANGED <<doc, lim, lim0, phase, ret, depth, scopes, emap, omap, inSpecs, rng, result, out, gx, px, passes>>
 
 \* loop head: test (count / while), bind the loop variable, run the body
